@@ -50,9 +50,17 @@ def build_harness(repo_build):
     with Lock("harness-build"):
         if os.path.exists(exe):
             return exe, None
-        srcs = sorted(glob.glob(os.path.join(VERIF, "harness", "*.cpp")))
+        srcs = [x for x in sorted(glob.glob(os.path.join(VERIF, "harness", "*.cpp"))) if not x.endswith("_fast.cpp")]
+        # *_fast.cpp: independent oracle code, compiled -O2 without sanitizers
+        objs = []
+        for x in sorted(glob.glob(os.path.join(VERIF, "harness", "*_fast.cpp"))):
+            o = os.path.join(repo_build, os.path.basename(x) + f".{hs}.o")
+            rc, out, err = run(["g++", "-std=gnu++17", "-O2", "-c", x, "-o", o])
+            if rc != 0:
+                return None, (out + err)[-6000:]
+            objs.append(o)
         cmd = ["g++", "-std=gnu++17"] + CXXFLAGS.split() + [
-            f"-I{REPO}/include", f"-I{REPO}/src", f"-I{VERIF}/harness"] + srcs + [
+            f"-I{REPO}/include", f"-I{REPO}/src", f"-I{VERIF}/harness"] + srcs + objs + [
             os.path.join(repo_build, "libprimesieve.a"), "-lpthread", "-o", exe + ".tmp"]
         rc, out, err = run(cmd)
         if rc != 0:
